@@ -378,49 +378,86 @@ theorem findTopic_correct (ts : List MTopic) (hs : SortedTopics ts) (n : String)
 
 /-! ### the metadata cache and the connection groups -/
 
-/-- the pool has a connection group for exactly the brokers of its cached layout -/
-def ConnsInv (s : PoolState) : Prop := ∀ id, id ∈ s.conns ↔ id ∈ keys s.layout.brokers
+/-- the pool has a connection group for exactly the brokers of its cached layout, and each group's dial
+address is the address the cached metadata gives for that broker -/
+def ConnsInv (s : PoolState) : Prop :=
+  ∀ id, s.conns.lookup id = (s.layout.brokers.lookup id).map Broker.addr
 
-theorem conns_update (oldB newB : List (Int × Broker)) (conns : List Int)
-    (inv : ∀ id, id ∈ conns ↔ id ∈ keys oldB) (id : Int) :
-    id ∈ (conns.filter (fun id => !(((keys newB).filter (fun id =>
+theorem lookup_append' {κ ν : Type} [BEq κ] (l1 l2 : List (κ × ν)) (k : κ) :
+    (l1 ++ l2).lookup k = (l1.lookup k).or (l2.lookup k) := by
+  induction l1 with
+  | nil => simp [List.lookup]
+  | cons e es ih =>
+    obtain ⟨ek, ev⟩ := e
+    simp only [List.cons_append, List.lookup]
+    split <;> simp [ih]
+
+theorem lookup_filter_key {ν : Type} (l : List (Int × ν)) (p : Int → Bool) (k : Int) :
+    (l.filter (fun e => p e.1)).lookup k = if p k then l.lookup k else none := by
+  induction l with
+  | nil => simp [List.lookup]
+  | cons e es ih =>
+    obtain ⟨ek, ev⟩ := e
+    by_cases hk : k == ek
+    · have : k = ek := by simpa using hk
+      subst this
+      by_cases hp : p k <;> simp [List.filter_cons, List.lookup, hp, ih]
+    · by_cases hp : p ek <;> simp [List.filter_cons, List.lookup, hp, hk, ih]
+
+theorem lookup_map_ids {ν : Type} (ids : List Int) (f : Int → ν) (k : Int) :
+    (ids.map (fun id => (id, f id))).lookup k = if k ∈ ids then some (f k) else none := by
+  induction ids with
+  | nil => simp [List.lookup]
+  | cons i is ih =>
+    by_cases hk : k == i
+    · have : k = i := by simpa using hk
+      subst this
+      simp [List.lookup]
+    · have hne : k ≠ i := by simpa using hk
+      simp [List.lookup, hk, ih, hne]
+
+theorem conns_update (oldB newB : List (Int × Broker)) (conns : List (Int × Addr))
+    (inv : ∀ id, conns.lookup id = (oldB.lookup id).map Broker.addr) (id : Int) :
+    ((conns.filter (fun e => !(((keys newB).filter (fun id =>
               match oldB.lookup id with
               | none => false
               | some b1 => some b1 != newB.lookup id)) ++
-            ((keys oldB).filter (fun id => (newB.lookup id).isNone))).contains id)) ++
+            ((keys oldB).filter (fun id => (newB.lookup id).isNone))).contains e.1)) ++
           ((keys newB).filter (fun id =>
               match oldB.lookup id with
               | none => true
-              | some b1 => some b1 != newB.lookup id))
-      ↔ id ∈ keys newB := by
+              | some b1 => some b1 != newB.lookup id)).map
+            (fun id => (id, (lookupD newB id Broker.zero).addr))).lookup id
+      = (newB.lookup id).map Broker.addr := by
   have hold := mem_keys_iff_lookup oldB id
   have hnew := mem_keys_iff_lookup newB id
-  simp only [List.mem_append, List.mem_filter, List.contains_eq_mem, List.mem_append, Bool.not_eq_true',
-    decide_eq_false_iff_not, inv id]
-  constructor
-  · rintro (⟨_, _⟩ | ⟨h, _⟩)
-    · next hin hnd =>
-      -- in the old map, not deleted: the new map must still hold it
-      cases hn : newB.lookup id with
-      | some b => exact hnew.mpr (by simp [hn])
-      | none =>
-        exfalso; apply hnd
-        right; exact ⟨hin, by simp [hn]⟩
-    · exact h
-  · intro hin
-    cases ho : oldB.lookup id with
-    | none => right; exact ⟨hin, by simp⟩
-    | some b1 =>
-      by_cases hch : (some b1 != newB.lookup id) = true
-      · right; exact ⟨hin, by simp [hch]⟩
-      · left
-        refine ⟨hold.mpr (by simp [ho]), ?_⟩
-        rintro (⟨_, h2⟩ | ⟨_, h2⟩)
-        · simp at h2; exact hch (by simpa using h2)
-        · have := hnew.mp hin
-          cases hn : newB.lookup id with
-          | none => simp [hn] at this
-          | some b => simp [hn] at h2
+  rw [lookup_append', lookup_filter_key conns (fun k => !(((keys newB).filter (fun id =>
+              match oldB.lookup id with
+              | none => false
+              | some b1 => some b1 != newB.lookup id)) ++
+            ((keys oldB).filter (fun id => (newB.lookup id).isNone))).contains k) id,
+    lookup_map_ids, inv id]
+  cases ho : oldB.lookup id with
+  | none =>
+    cases hn : newB.lookup id with
+    | none =>
+      have h1 : id ∉ keys newB := fun h => by simpa [hn] using hnew.mp h
+      simp [h1]
+    | some b2 =>
+      have h1 : id ∈ keys newB := hnew.mpr (by simp [hn])
+      simp [h1, ho, lookupD, hn]
+  | some b1 =>
+    have h0 : id ∈ keys oldB := hold.mpr (by simp [ho])
+    cases hn : newB.lookup id with
+    | none =>
+      have h1 : id ∉ keys newB := fun h => by simpa [hn] using hnew.mp h
+      simp [h1, h0, hn]
+    | some b2 =>
+      have h1 : id ∈ keys newB := hnew.mpr (by simp [hn])
+      by_cases hb : b1 = b2
+      · subst hb
+        simp [h1, h0, ho, hn]
+      · simp [h1, h0, ho, hn, hb, lookupD]
 
 theorem update_connsInv (s : PoolState) (m : Option MResponse) (err : Bool) (h : ConnsInv s) :
     ConnsInv (update s m err) := by
